@@ -56,10 +56,11 @@ Record fixes := mkFixes {
   f_prune_maps : bool;      (* C10-prune-maps *)
   f_prune_canon : bool;     (* C10-prune-canonical-flag *)
   f_prune_reparent : bool;  (* C10-prune-reparent *)
-  f_prune_partial : bool    (* C10-prune-partial-reparent *)
+  f_prune_partial : bool;   (* C10-prune-partial-reparent *)
+  f_gap_head : bool         (* C10-gap-anchor-prune-head *)
 }.
-Definition fixed : fixes := mkFixes true true true true true true true true true true true true true true true true.
-Definition pinned : fixes := mkFixes false false false false false false false false false false false false false false false false.
+Definition fixed : fixes := mkFixes true true true true true true true true true true true true true true true true true.
+Definition pinned : fixes := mkFixes false false false false false false false false false false false false false false false false false.
 
 (* ---------- slices and maps ---------- *)
 Definition lenN {A} (l : list A) : N := N.of_nat (length l).
@@ -325,6 +326,28 @@ Definition ensureConnections (fx : fixes) : M parray unit :=
   pa <- get ;;
   if pa_upd pa then ret tt else updateConnections fx.
 
+(* repaired (C10-gap-anchor-prune-head): a start on an empty slot above the first slot known for its root. The blocks built on that
+   root after the start slot hang off the root's first node; they descend from the start all the same. for i := range pr.nodes:
+   among the next empty slot and those blocks, the one leading to a viable head with the greatest (weight, root) *)
+Fixpoint gap_best (fx : fixes) (pa : parray) (nodes : list node) (i : nat) (anchorIndex lowIndex : index) (anchorRoot : root)
+         (anchorSlot : slot) (best : option node) (bestDesc : index) : outcome index :=
+  match nodes with
+  | [] => Ok bestDesc
+  | n :: rest =>
+      if negb (n_fp n =? anchorIndex) &&
+         negb ((n_fp n =? lowIndex) && (n_parent n =? anchorRoot) && negb (fst (n_ref n) =? anchorRoot) && (anchorSlot <? snd (n_ref n)))
+      then gap_best fx pa rest (S i) anchorIndex lowIndex anchorRoot anchorSlot best bestDesc
+      else
+        bind (nodeLeadsToViableHead fx pa n) (fun leads =>
+          if leads && (match best with
+                       | None => true
+                       | Some b => (n_w b <? n_w n)%Z || ((n_w n =? n_w b)%Z && (fst (n_ref b) <? fst (n_ref n)))
+                       end)
+          then gap_best fx pa rest (S i) anchorIndex lowIndex anchorRoot anchorSlot (Some n)
+                        (if n_bd n =? NONE then add64 (pa_off pa) (N.of_nat i) else n_bd n)
+          else gap_best fx pa rest (S i) anchorIndex lowIndex anchorRoot anchorSlot best bestDesc)
+  end.
+
 Definition FindHead (fx : fixes) (anchorRoot : root) (anchorSlot : slot) : M parray ref :=
   ensureConnections fx ;;;
   pa <- get ;;
@@ -332,7 +355,11 @@ Definition FindHead (fx : fixes) (anchorRoot : root) (anchorSlot : slot) : M par
   | None => fail Err
   | Some anchorIndex =>
       anchorNode <- lift_o (getNode fx pa anchorIndex) ;;
-      let bestDescIndex := if n_bd anchorNode =? NONE then anchorIndex else n_bd anchorNode in
+      let lowSlot := match bs_get (pa_bs pa) anchorRoot with Some s => s | None => 0 end in
+      bestDescIndex <- lift_o (if f_gap_head fx && (n_parent anchorNode =? anchorRoot) && (lowSlot <? anchorSlot)
+                               then gap_best fx pa (pa_nodes pa) 0 anchorIndex (idx_get0 (pa_idx pa) (anchorRoot, lowSlot))
+                                             anchorRoot anchorSlot None anchorIndex
+                               else Ok (if n_bd anchorNode =? NONE then anchorIndex else n_bd anchorNode)) ;;
       bestNode <- lift_o (getNode fx pa bestDescIndex) ;;
       if viable pa bestNode then ret (n_ref bestNode) else fail Err
   end.
